@@ -21,6 +21,16 @@ def run(tier, seed):
             r["name"] = None
         r["roundtrip"] = True
         recipes.append(r)
+    # the same objects used twice, inputs stored with the origin exactly on a fragment boundary (rotation by 0 inside)
+    from . import typing_common as tc
+    for espec, G in tc.geometries():
+        c = G.case(rng, rng.randint(1, min(2, G.capacity() - 1)))
+        if c is None or (q and rng.random() < 0.5):
+            continue
+        k = len(G.site) + G.off
+        mods = [{"id": "m%d" % (i + 1), "seq": m[k:] + m[:k]} for i, m in enumerate(c["modules"])]      # starts on its upstream overhang
+        recipes.append({"fn": "assemble", "enz": espec, "vector": {"id": "vec", "seq": c["vector"]}, "modules": mods,   # starts on its downstream overhang
+                        "id": "twice", "name": "twice", "warmup": True, "roundtrip": True})
     traces = ac.validate(run, "provenance", recipes)
     run.extra["roundtrips"] = sum(1 for t in traces if len(t) > 1)
     # multi-level: products re-used as modules (inner provenance nested in outer) - see C11's driver
